@@ -326,6 +326,10 @@ class dns(packet_base):
                 self._exc(e, 'parsing additional resource records')
                 return None
 
+        if query_head < dlen:
+            # Keep whatever follows the records the header announces
+            self.next = raw[query_head:]
+
         self.parsed = True
 
     def _to_str(self):
